@@ -657,8 +657,11 @@ class ScrollBar(WidgetDecoration[WrappedWidget]):
     ) -> bool | None:
         ow = self._original_widget
         ow_size = self._original_widget_size
+        if self._scrollbar_side == SCROLLBAR_LEFT:
+            # the scrollbar (when it is drawn) takes the leftmost columns: translate to the wrapped widget
+            col -= size[0] - ow_size[0]
         handled: bool | None = False
-        if hasattr(ow, "mouse_event"):
+        if hasattr(ow, "mouse_event") and col >= 0:
             handled = ow.mouse_event(ow_size, event, button, col, row, focus)
 
         if not handled and hasattr(ow, "set_scrollpos"):
